@@ -367,6 +367,10 @@ def barrierOld (cfg : JCfg) (nd : JNode) (src : Nat) (grp : String) (t : Int) : 
   let (g, sets, st) := (nd.group cfg grp).barrierOld src (goRound cfg.tol t)
   ({ groups := gupsert grp g nd.groups }, sets, st)
 
+/-- `Delete(src, d)`: the group (with whatever it had buffered) is dropped from the node; the message itself is
+forwarded by the caller. (The `on()` buffers and low marks of the group, dropped too, are not modelled.) -/
+def delete (nd : JNode) (grp : String) : JNode := { groups := nd.groups.filter (fun p => p.1 != grp) }
+
 /-- `Finish()`: every group's `emitAll` (Go map order: the order across groups is not defined). -/
 def finish : List (String × JGroup JMsg) → List (String × JGroup JMsg) × List (JSet JMsg) × Status
   | [] => ([], [], .ok)
